@@ -96,6 +96,22 @@ func cloneSet(a [][]byte) [][]byte {
 	return r
 }
 
+// contiguous lays byte strings out back to back in one array and returns them as sub-slices whose capacity runs to the
+// end of the array (what a decoder that slices one input buffer produces): a routine that appends to one of them
+// overwrites the next.
+func contiguous(parts [][]byte) (views [][]byte, whole []byte) {
+	for _, p := range parts {
+		whole = append(whole, p...)
+	}
+	whole = append(whole, 0xA5, 0x5A, 0xA5, 0x5A)
+	off := 0
+	for _, p := range parts {
+		views = append(views, whole[off:off+len(p)])
+		off += len(p)
+	}
+	return
+}
+
 func accumulator(c *mon.Ctx, cfg hcfg, N int, rng *gen.Rng) {
 	h := cfg.newH()
 	vh := cfg.newH()
@@ -113,13 +129,32 @@ func accumulator(c *mon.Ctx, cfg hcfg, N int, rng *gen.Rng) {
 				c.Fail(L+"/SetIndex/error", "n=%d i=%d err=%v", n, i, err)
 				continue
 			}
+			// the leaves are views into one array (hostile layout); queries are read-only: the root is read before the proof
+			// for every other index, and the proof is produced twice
+			lv, flat := contiguous(m.leaves)
+			flat0 := append([]byte(nil), flat...)
 			for k := 0; k < n; k++ {
-				t.Push(m.leaves[k])
+				t.Push(lv[k])
+				if (i+k)%5 == 0 {
+					c.Check("Root", L+"/Root/intermediate-mismatch", bytes.Equal(t.Root(), m.mth(0, k+1)), func() string {
+						return fmt.Sprintf("n=%d i=%d: Root() after %d pushes", n, i, k+1)
+					})
+				}
+			}
+			if i%2 == 0 {
+				c.Check("Root", L+"/Root/mismatch-before-prove", bytes.Equal(t.Root(), wantRoot), func() string { return fmt.Sprintf("n=%d i=%d", n, i) })
 			}
 			root, ps, idx, nl := t.Prove()
 			want := append([][]byte{m.leaves[i]}, m.path(i, 0, n)...)
 			desc := func() string {
 				return fmt.Sprintf("n=%d i=%d root=%x wantRoot=%x proofLen=%d wantLen=%d idx=%d numLeaves=%d", n, i, root, wantRoot, len(ps), len(want), idx, nl)
+			}
+			{
+				root2, ps2, idx2, nl2 := t.Prove()
+				c.Check("Prove", L+"/Prove/second-call-differs", bytes.Equal(root2, wantRoot) && eqSets(ps2, want) && idx2 == uint64(i) && nl2 == uint64(n), func() string {
+					return desc() + fmt.Sprintf("; second Prove(): root=%x proofLen=%d", root2, len(ps2))
+				})
+				c.Check("Prove", L+"/Push/leaf-buffer-modified", bytes.Equal(flat, flat0), desc)
 			}
 			c.Check("Prove", L+"/Prove/root-mismatch", bytes.Equal(root, wantRoot), desc)
 			c.Check("Prove", L+"/Root/mismatch", bytes.Equal(t.Root(), wantRoot), desc)
@@ -127,6 +162,14 @@ func accumulator(c *mon.Ctx, cfg hcfg, N int, rng *gen.Rng) {
 			c.Check("Prove", L+"/Prove/index-or-count", idx == uint64(i) && nl == uint64(n), desc)
 			ps = cloneSet(want) // tamper the model's (= honest) proof
 			c.Check("VerifyProof", L+"/Verify/honest-rejected", merkletree.VerifyProof(vh, wantRoot, ps, uint64(i), uint64(n)), desc)
+			{
+				// the same proof as views into one decoded buffer: accepted, and the buffer is left alone
+				cs, buf := contiguous(want)
+				buf0 := append([]byte(nil), buf...)
+				okc := merkletree.VerifyProof(vh, wantRoot, cs, uint64(i), uint64(n))
+				c.Check("VerifyProof", L+"/Verify/honest-rejected/contiguous-proof-buffer", okc, desc)
+				c.Check("VerifyProof", L+"/Verify/proof-buffer-modified", bytes.Equal(buf, buf0), desc)
+			}
 			if n <= 40 || i%7 == 0 || i == n-1 {
 				c.Class(fmt.Sprintf("%s/n%d/depth%d/i-mod4=%d", L, n, len(want), i%4))
 			}
@@ -294,9 +337,25 @@ func decompositions(c *mon.Ctx, cfg hcfg, rng *gen.Rng) {
 	run := func(n, i int, m *mdl, d []piece, kind string) {
 		t := merkletree.New(h)
 		t.SetIndex(uint64(i))
+		// cached sub-tree roots stored back to back in one table, as a cache would keep them
+		var cachedRoots [][]byte
 		for _, p := range d {
 			if p.cached {
-				if err := t.PushSubTree(log2(p.hi-p.lo), m.mth(p.lo, p.hi)); err != nil {
+				cachedRoots = append(cachedRoots, m.mth(p.lo, p.hi))
+			}
+		}
+		cviews, ctable := contiguous(cachedRoots)
+		ctable0 := append([]byte(nil), ctable...)
+		ci := 0
+		defer func() {
+			c.Check("PushSubTree", L+"/"+kind+"/cached-root-table-modified", bytes.Equal(ctable, ctable0), func() string {
+				return fmt.Sprintf("n=%d i=%d decomposition=%v", n, i, d)
+			})
+		}()
+		for _, p := range d {
+			if p.cached {
+				ci++
+				if err := t.PushSubTree(log2(p.hi-p.lo), cviews[ci-1]); err != nil {
 					c.Fail(L+"/PushSubTree/error", "n=%d i=%d piece=%v err=%v decomposition=%v", n, i, p, err, d)
 					return
 				}
